@@ -162,3 +162,90 @@ Example C15_example_run :
         [("1", CBase SHam "1"); ("g", CBase SHam "g"); ("k*j", CI (CBase SJump "k"))])%string.
 Proof. vm_compute. reflexivity. Qed.
 Print Assumptions C15_example_run.
+
+(* ---- Hermiticity (Lindblad/Herm.v) ------------------------------------------------------------- *)
+(* The library evolves with exp(-i t LL), LL = lindblad_rhs: d/dt rho = D(rho) := -i LL(rho)
+   (`ddt A LL rho` = smul (-i) (LL rho)); written out,
+     D(rho) = -i (H rho - rho H) + sum_k gamma_k (L_k rho L_k^+ - 1/2 L_k^+L_k rho - 1/2 rho L_k^+L_k).
+   `adj_laws A cconj` are the laws of the adjoint missing from alg_laws (which has anti-
+   multiplicativity and involutivity): additivity, conjugate-linearity mH (a x) = cconj a (mH x),
+   cconj multiplicative, cconj i = -i, cconj q = q for rational q.  Laws of matrices, not of the code. *)
+From PTN Require Import Lindblad.Herm.
+
+(* GKSL sign, H Hermitian, real rates:  D(rho)^+ = D(rho^+); Hermitian rho stays Hermitian *)
+Theorem C15_gksl_hermiticity : forall (A : alg), alg_laws A ->
+  forall (cconj : aC A -> aC A), adj_laws A cconj ->
+  forall (hval jval : label -> aL A) (hcoef jcoef : cname -> aC A) (hs js : list term),
+  mH A (ham_op A hval hcoef hs) = ham_op A hval hcoef hs ->
+  (forall t, In t js -> cconj (jcoef (snd (fst t))) = jcoef (snd (fst t))) ->
+  forall rho : aM A,
+  mH A (smul A (copp A (ci A)) (lindblad_rhs A hval jval hcoef jcoef false hs js rho))
+  = smul A (copp A (ci A)) (lindblad_rhs A hval jval hcoef jcoef false hs js (mH A rho)).
+Proof. exact gksl_hermiticity. Qed.
+Print Assumptions C15_gksl_hermiticity.
+
+(* the same fact on the generator as the library writes it: LL(rho)^+ = - LL(rho^+) *)
+Theorem C15_gksl_generator_adjoint : forall (A : alg), alg_laws A ->
+  forall (cconj : aC A -> aC A), adj_laws A cconj ->
+  forall (hval jval : label -> aL A) (hcoef jcoef : cname -> aC A) (hs js : list term),
+  mH A (ham_op A hval hcoef hs) = ham_op A hval hcoef hs ->
+  (forall t, In t js -> cconj (jcoef (snd (fst t))) = jcoef (snd (fst t))) ->
+  forall rho : aM A,
+  mH A (lindblad_rhs A hval jval hcoef jcoef false hs js rho)
+  = mopp A (lindblad_rhs A hval jval hcoef jcoef false hs js (mH A rho)).
+Proof. exact gksl_adjoint. Qed.
+Print Assumptions C15_gksl_generator_adjoint.
+
+(* ... and on what generate_lindbladian (repaired sign) produces, read through its dictionaries *)
+Theorem C15_generated_hermiticity_fixed : forall (A : alg), alg_laws A ->
+  forall (cconj : aC A -> aC A), adj_laws A cconj ->
+  forall (hval jval : label -> aL A) (hcoef jcoef : cname -> aC A) (i : input) (g : gen) (rho : aM A),
+  generate_struct false i = Ok g ->
+  wf_input i -> sound_flags A hval jval i -> functional_tables A hval jval hcoef jcoef g ->
+  mH A (ham_op A hval hcoef (h_terms i)) = ham_op A hval hcoef (h_terms i) ->
+  (forall t, In t (map deal (j_ops i)) -> cconj (jcoef (snd (fst t))) = jcoef (snd (fst t))) ->
+  mH A (ddt A (denote_gen A hval jval hcoef jcoef g) rho)
+  = ddt A (denote_gen A hval jval hcoef jcoef g) (mH A rho).
+Proof. exact generated_hermiticity_fixed. Qed.
+Print Assumptions C15_generated_hermiticity_fixed.
+
+(* H is Hermitian when its coefficients are real and its terms Hermitian *)
+Theorem C15_ham_op_hermitian : forall (A : alg), alg_laws A ->
+  forall (cconj : aC A -> aC A), adj_laws A cconj ->
+  forall (hval : label -> aL A) (hcoef : cname -> aC A) (hs : list term),
+  (forall t, In t hs -> cconj (hcoef (snd (fst t))) = hcoef (snd (fst t))) ->
+  (forall t, In t hs -> mH A (tpval A hval (snd t)) = tpval A hval (snd t)) ->
+  mH A (ham_op A hval hcoef hs) = ham_op A hval hcoef hs.
+Proof. exact ham_op_hermitian. Qed.
+Print Assumptions C15_ham_op_hermitian.
+
+(* The CURRENT sign (bug_sign = true) does NOT preserve Hermiticity.  Witness in M2alg = 2x2
+   matrices over Q(i) (a lawful instance, next two statements): one two-level site, H = 0,
+   L = sigma^- = [[0,1],[0,0]], rate 1; the input satisfies every hypothesis of the theorems above,
+   rho = [[1,1],[1,1]] is Hermitian, and D(rho)^+ <> D(rho^+) = D(rho).  (No 1x1 instance can show
+   this: the defect is the commutator [L^+L, rho].) *)
+Theorem C15_hermiticity_current_sign :
+  exists (i : input) (g : gen) (rho : aM M2alg),
+    generate_struct true i = Ok g /\
+    wf_input i /\
+    sound_flags M2alg wval wval i /\
+    functional_tables M2alg wval wval wcoef wcoef g /\
+    mH M2alg (ham_op M2alg wval wcoef (h_terms i)) = ham_op M2alg wval wcoef (h_terms i) /\
+    (forall t, In t (map deal (j_ops i)) -> Gconj (wcoef (snd (fst t))) = wcoef (snd (fst t))) /\
+    mH M2alg rho = rho /\
+    mH M2alg (ddt M2alg (denote_gen M2alg wval wval wcoef wcoef g) rho)
+    <> ddt M2alg (denote_gen M2alg wval wval wcoef wcoef g) (mH M2alg rho).
+Proof. exact hermiticity_refuted_current. Qed.
+Print Assumptions C15_hermiticity_current_sign.
+
+(* the values: entries (re, im) of D(rho) in row-major order, current sign / GKSL sign *)
+Theorem C15_hermiticity_witness_values :
+  M2_show (M2_ddt true herm_witness rho_w) = Some [(1, 0); (1 # 2, 0); (-1 # 2, 0); (0, 0)]%Q /\
+  M2_show (M2_ddt false herm_witness rho_w) = Some [(1, 0); (-1 # 2, 0); (-1 # 2, 0); (-1, 0)]%Q.
+Proof. exact herm_witness_values. Qed.
+Print Assumptions C15_hermiticity_witness_values.
+
+(* non-vacuity: the laws (including the adjoint laws) hold in a non-commutative algebra *)
+Example C15_laws_satisfiable_M2 : alg_laws M2alg /\ adj_laws M2alg Gconj.
+Proof. exact (conj M2alg_laws M2alg_adj_laws). Qed.
+Print Assumptions C15_laws_satisfiable_M2.
